@@ -165,6 +165,10 @@ func writeCategoryNameFile(catName, dirName string) error {
 	if _, err = fp.WriteString(catName); err != nil {
 		return errors.New(io.GetCallerFileContext(0) + err.Error())
 	}
+	// the catalog cannot be loaded without this file: make it durable before data is written below it
+	if err = fp.Sync(); err != nil {
+		return errors.New(io.GetCallerFileContext(0) + err.Error())
+	}
 	return nil
 }
 
@@ -774,6 +778,11 @@ func newTimeBucketInfoFromTemplate(newTimeBucketInfo *io.TimeBucketInfo) (err er
 		int(newTimeBucketInfo.GetRecordLength()),
 	)
 	if err = fp.Truncate(fileSize); err != nil {
+		return UnableToCreateFile(err.Error())
+	}
+	// WAL replay does not recreate headers: a write into this file may be acknowledged (WAL synced)
+	// long before the next checkpoint syncs the primary files, so the header must be durable now.
+	if err = fp.Sync(); err != nil {
 		return UnableToCreateFile(err.Error())
 	}
 
